@@ -367,7 +367,7 @@ func (g *Gen) base(t reflect.Type, c ctx) reflect.Value {
 	default:
 		switch t.Kind() {
 		case reflect.String:
-			v.SetString(fmt.Sprintf("%s.%s#%d", c.owner, c.fname, c.salt))
+			v.SetString(shortName(c.owner, c.fname, c.salt))
 		case reflect.Bool:
 			v.SetBool(true)
 		case reflect.Uint8:
@@ -399,6 +399,21 @@ func (g *Gen) base(t reflect.Type, c ctx) reflect.Value {
 		}
 	}
 	return v
+}
+
+// shortName is the base value of a string field: short (the byte level families of C12 are
+// proportional to the corpus size) but distinct for every field of a struct and every element.
+func shortName(owner, fname string, salt int) string {
+	ini := ""
+	for _, r := range owner {
+		if r >= 'A' && r <= 'Z' {
+			ini += string(r)
+		}
+	}
+	if len(fname) > 4 {
+		fname = fname[:4]
+	}
+	return fmt.Sprintf("%s.%s%d", ini, fname, salt)
 }
 
 func (g *Gen) slice(t reflect.Type, c ctx, n int) reflect.Value {
